@@ -91,6 +91,16 @@ CHECKS = {
              "groups are executed as subprocesses under all nine designator spellings and the program's sys.argv, exit "
              "status and output are compared with the spec and across modes.",
         note="-i / REPL start-up and hy2py/hyc command lines are not covered; -m needs the module on sys.path (cwd)."),
+    "C16": dict(
+        engine="macros", level="model_checking", design="5.7, 6/C16",
+        technique="TLC enumerates staging programs of HyStaging with the expected number of firings per effect site and "
+                  "history; each history is run as a separate interpreter process and the firings counted",
+        text="For every module of up to 2 (thorough 3) staging forms, at top level or inside a function called 0-2 times, "
+             "the spec gives how often each body and each piece of do-mac-generated code runs when the module is only "
+             "compiled, imported from source, and imported again from cached bytecode (laws: bytecode = run-time part; "
+             "eval-when-compile contributes nothing at run time); the three histories are executed in fresh processes "
+             "with a private bytecode cache and compared, together with the values eval-and-compile and do-mac yield.",
+        note="HY_MESSAGE_WHEN_COMPILING distinguishes compiling from loading bytecode; no source hook is needed."),
     "C18": dict(
         engine="reader", level="model_checking", design="5.4, 6/C18",
         technique="TLC enumerates every short text of HyReader's alphabet with the spec's outcome; the real reader "
